@@ -1,2 +1,46 @@
-(* Props/C02.v — placeholder, theorems added in a later commit *)
-From NIR Require Import Model.Serial.
+(* Props/C02.v — Tensor parameters survive serialisation bit-for-bit.
+   PARTIAL BY NATURE: the theorems show that NIR's own code (to_dict, write_recursive, hdf2dict) never
+   converts an ndarray — it reaches the reader's dictionary with identical dtype, shape and content
+   token at every depth. That h5py/libhdf5 store and return those bytes unchanged (NaN payloads,
+   signed zeros, strides ...) is store law A1, exercised by the correspondence run, not proved. *)
+From NIR Require Import Model.Serial Proofs.SerialProofs.
+
+(* what nir.read decodes is exactly from_dict of the normalised dictionary form *)
+Theorem c02_read_sees_normalised_dict :
+  forall g t, write g = Ok t ->
+    exists d', norm_entries (to_dict g) = Ok d' /\ read t = from_dict d' /\ read_version t = Ok nir_version.
+Proof. exact read_write_refines. Qed.
+
+(* every array of rank >= 1 reachable in the dictionary form — any field of any node at any nesting
+   depth, metadata included — is reachable, IDENTICAL, in the dictionary the reader rebuilds *)
+Theorem c02_arrays_identical :
+  forall d d' p dt sh tok i,
+    norm_entries d = Ok d' -> reach d p (VArr dt sh tok i) -> sh <> [] -> reach d' p (VArr dt sh tok i).
+Proof. exact arrays_survive_deep. Qed.
+
+(* a zero-dimensional array comes back as the numpy scalar of the same dtype and content *)
+Theorem c02_zero_dim :
+  forall d d' p dt tok i,
+    norm_entries d = Ok d' -> reach d p (VArr dt [] tok i) ->
+    reach d' p (VNp dt tok (match i with Some [z] => Some z | _ => None end)).
+Proof. exact arrays0_survive_deep. Qed.
+
+(* and the dictionary form really contains every field of every child *)
+Theorem c02_fields_are_in_the_dictionary :
+  forall ch es gi go m name k fs tin tout f v,
+    In (name, Leaf k fs tin tout) ch -> In (f, v) fs ->
+    reach (to_dict (Graph ch es gi go m)) ["nodes"; name; f] v.
+Proof. exact to_dict_reach_child_field. Qed.
+
+(* non-vacuity: a Fortran-ordered complex weight inside a nested node *)
+Example c02_example :
+  reach (to_dict (Graph [("a", Leaf KLinear [("weight", VArr "complex64" [2; 3] 77 None); ("metadata", VDict [])]
+                                    (Some [("input", TArr [3])]) (Some [("output", TArr [2])]))] [] None (Some []) (VDict [])))
+        ["nodes"; "a"; "weight"] (VArr "complex64" [2; 3] 77 None).
+Proof. apply to_dict_reach_child_field with (k := KLinear) (tin := Some [("input", TArr [3])]) (tout := Some [("output", TArr [2])])
+         (fs := [("weight", VArr "complex64" [2; 3] 77 None); ("metadata", VDict [])]); cbn; auto. Qed.
+
+Print Assumptions c02_read_sees_normalised_dict.
+Print Assumptions c02_arrays_identical.
+Print Assumptions c02_zero_dim.
+Print Assumptions c02_fields_are_in_the_dictionary.
